@@ -1028,6 +1028,13 @@ def clht_models(ctx, prop):
             raise Inconclusive("TLC reports %s in CLHT family %s/%s with the code's design switches: the specification misrepresents the code or the design is broken; "
                                "not a verdict about the code (real-code histories decide)\n%s" % (r["violated"], name, variant, r["out"][-2500:]))
         ctx.add_model("CLHT/%s/%s" % (variant, name), r)
+    if prop == "C13" and ctx.thorough:
+        # liveness under weak fairness: every call eventually returns (no livelock in the retry loops, no lost wake-up)
+        for (variant, name) in (("MapOf", "S7-clear-vs-grow"), ("Map", "S5-shrink"), ("Map", "S4-grow")):
+            r = clht.run_family(name, variant, timeout=7200, liveness=True)
+            if r["violated"]:
+                raise Inconclusive("TLC reports %s for EventuallyDone in CLHT family %s/%s (specification, not a verdict about the code)\n%s" % (r["violated"], name, variant, r["out"][-2000:]))
+            ctx.add_model("CLHT/%s/%s + liveness(EventuallyDone, WF)" % (variant, name), r)
     mpath = os.path.join(lib.SPECS, "switch_matrix.json")
     if os.path.exists(mpath):
         m = json.load(open(mpath))
